@@ -380,3 +380,21 @@ Definition name_verdict (c : name_case) : verdict :=
                 else ImplError
       end
   end.
+
+(* ---- C17: with-block programs ---- *)
+From Lekkersim Require Import Stack.
+
+Record stack_case := {
+  sk_prog : prog; sk_init : list nat;
+  sk_obs_exc : bool;                           (* the program left through an exception *)
+  sk_obs_stack : list nat;                     (* sol_list afterwards *)
+  sk_obs_log : list (nat * nat)                (* (helper, solver that changed) in execution order *)
+}.
+
+Definition stack_verdict (c : stack_case) : verdict :=
+  let (o, s') := exec (sk_prog c) (top (sk_init c)) {| stack := sk_init c; log := [] |} in
+  let exc := match o with Exc => true | Normal => false end in
+  if Bool.eqb exc (sk_obs_exc c) &&
+     mseq Nat.eqb (stack s') (sk_obs_stack c) && all2 Nat.eqb (stack s') (sk_obs_stack c) &&
+     all2 (fun e f => Nat.eqb (fst (fst e)) (fst f) && Nat.eqb (snd (fst e)) (snd f)) (log s') (sk_obs_log c)
+  then Agree else Differ.
